@@ -1,8 +1,9 @@
 #!/bin/bash
-# Re-evaluates every kept seeded change against the current tree and prints one line per change.
+# Re-evaluates every kept seeded change against the current tree and prints one line per change (4 at a time).
+# env VERIF_HOME: run the checks from that copy of /verif (see seedtest.sh).
 cd /verif
-for d in seeded/*/; do
-  id=$(basename "$d"); prop=${id%%-*}
+one() {
+  d=$1; id=$(basename "$d"); prop=${id%%-*}
   extra=""
   [ "$id" = "C08-B" ] && extra="C08 C12"
   [ "$id" = "C13-L" ] && extra="C13 C15"
@@ -10,6 +11,8 @@ for d in seeded/*/; do
   out=$(tools/seedtest.sh "$prop" "$d/patch.diff" "$d/demo_test.go" quick $extra 2>&1)
   keys=$(echo "$out" | grep -c '^  key=')
   conf=$(echo "$out" | grep -E '^(demo_without|suite_with|demo_with)=' | tr '\n' ' ')
-  if echo "$out" | grep -q "patch does not apply"; then echo "$id NOT-APPLICABLE-TO-HEAD"; continue; fi
+  if echo "$out" | grep -q "patch does not apply"; then echo "$id NOT-APPLICABLE-TO-HEAD"; return; fi
   echo "$id $conf detected_keys=$keys"
-done
+}
+export -f one
+ls -d seeded/*/ | xargs -P "${SEEDALL_JOBS:-4}" -I{} bash -c 'one {}'
